@@ -58,6 +58,14 @@ func c08templates() []c08tmpl {
 		}
 		add(fmt.Sprintf("%d kwargs on func (names descending)", n), "g8("+strings.Join(rev, ", ")+")", true)
 	}
+	// one keyword argument per line: same column, decreasing columns, increasing columns
+	add("kwargs one per line (same column)", "g8(\n  a: «0:int»,\n  b: «1:int»,\n  c: «2:int»,\n  d: «3:int»,\n  e: «4:int»)", true)
+	add("kwargs one per line (names descending, same column)", "g8(\n  e: «0:int»,\n  d: «1:int»,\n  c: «2:int»,\n  b: «3:int»,\n  a: «4:int»)", true)
+	add("kwargs one per line (decreasing columns)", "g8(\n        a: «0:int»,\n      b: «1:int»,\n    c: «2:int»,\n  d: «3:int»,\n e: «4:int»)", true)
+	add("kwargs one per line (increasing columns)", "g8(\n a: «0:int»,\n  b: «1:int»,\n   c: «2:int»,\n    d: «3:int»,\n     e: «4:int»)", true)
+	add("kwargs two per line", "g8(a: «0:int», b: «1:int»,\n  c: «2:int», d: «3:int»,\n  e: «4:int», f: «5:int»)", true)
+	add("duplicate kwargs one per line", "g8(\n  a: «0:int»,\n  b: «1:int»,\n  a: «2:int»,\n  b: «3:int»)", true)
+	add("func literal defaults one per line", "{|x,\n  a: «0:int»,\n  b: «1:int»,\n  c: «2:int»| [x, a, b, c]}(1)", true)
 	add("kwargs on method", "om.m(«0:int», j: «2:int», «1:int», k: «3:int»)", true)
 	add("kwargs on _missing callee", "mo.anything(«0:int», j: «2:int», «1:int», k: «3:int»)", true)
 	add("kwargs on built-in", "{a: 1, _b: 2}.keys(private?: «0:true»)", true)
@@ -84,7 +92,7 @@ func c08templates() []c08tmpl {
 	add("map pairs (key and value of one pair in either order)", "%{«0:int»: «1:int», «2:str»: «3:int», «4:nil»: «5:int»}", true, []int{0, 1}, []int{2, 3}, []int{4, 5})
 	add("map pairs then ** operands", "%{«0:int»: «1:int», **«2:map», **«3:obj»}", true, []int{0, 1}, []int{2}, []int{3})
 	add("call with * and ** operands", "f2(*«0:arr», **«1:obj»)", true)
-	for n := 2; n <= 5; n++ {
+	for _, n := range []int{2, 3, 4, 5, 8, 12, 13, 14, 16, 20, 33} {
 		s := `"`
 		for i := 0; i < n; i++ {
 			s += fmt.Sprintf("p%d#{«%d:int»}", i, i)
